@@ -620,8 +620,15 @@ fn keep_labels_in_sync(p: &Plan, h: HttpPlan) -> Option<Plan> {
 impl Property for C03 {
     fn id(&self) -> &'static str { "C03" }
     fn runs(&self, tier: Tier) -> u64 { match tier { Tier::Quick => 12000, Tier::Thorough => 250000 } }
-    fn gen_plan(&self, seed: u64, tier: Tier) -> Value { serde_json::to_value(generate(seed, tier)).unwrap() }
+    fn gen_plan(&self, seed: u64, tier: Tier) -> Value {
+        // one plan in eight: HTTP/2 request whose content-length disagrees with its DATA frames (c03_h2.rs)
+        if Prng::derive(seed, "c03/family").below(8) == 0 { return serde_json::to_value(super::c03_h2::generate(seed, tier)).unwrap(); }
+        serde_json::to_value(generate(seed, tier)).unwrap()
+    }
     fn run_plan(&self, plan: &Value) -> RunReport {
+        if plan.get("mux").is_some() {
+            return match serde_json::from_value::<super::c03_h2::H2ClPlan>(plan.clone()) { Ok(p) => super::c03_h2::run(&p, false).0, Err(e) => RunReport { harness_error: Some(format!("bad plan: {e}")), ..Default::default() } };
+        }
         let p: Plan = match serde_json::from_value(plan.clone()) { Ok(p) => p, Err(e) => return RunReport { harness_error: Some(format!("bad plan: {e}")), ..Default::default() } };
         if std::env::var("SIMK_C03_DEBUG").is_ok() { eprintln!("{}", self.debug_plan(plan)); }
         let oa = run_http(&p.http, false);
@@ -686,6 +693,7 @@ impl Property for C03 {
         rep
     }
     fn shrink(&self, plan: &Value) -> Vec<Value> {
+        if plan.get("mux").is_some() { return vec![]; }
         let Ok(p) = serde_json::from_value::<Plan>(plan.clone()) else { return vec![] };
         let mut out: Vec<Plan> = Vec::new();
         // drop clients / elements, simplify schedules and pacing (labels kept in sync)
@@ -731,6 +739,7 @@ impl Property for C03 {
         out.into_iter().map(|q| serde_json::to_value(q).unwrap()).collect()
     }
     fn debug_plan(&self, plan: &Value) -> String {
+        if plan.get("mux").is_some() { let p: super::c03_h2::H2ClPlan = serde_json::from_value(plan.clone()).unwrap(); return super::c03_h2::run(&p, true).1; }
         let p: Plan = serde_json::from_value(plan.clone()).unwrap();
         let mut s = format!("{}\n", summarize(&p));
         for (ci, c) in p.http.clients.iter().enumerate() {
